@@ -446,16 +446,56 @@ class Body:
         self._flags = set(cand)
         return self._flags
 
+    def stable_bools(self):
+        """bool locals with exactly one definition that are never mutably borrowed: once computed, every
+        later test of the same local (through copies / Not) on a path must agree."""
+        if getattr(self, "_stable", None) is not None:
+            return self._stable
+        cand = set()
+        for l, dl in self.defs().items():
+            if self.locals[l]["ty"] == "bool" and l > self.nargs and len(dl) == 1 and l not in self.flag_locals():
+                d = dl[0]
+                if d[0] == "stmt" and d[3]["pl"]["p"]:
+                    continue
+                cand.add(l)
+        for b in range(self.n):
+            for st in self.blocks[b]["stmts"]:
+                if st["k"] == "assign" and st["rv"]["k"] in ("ref", "rawptr") and st["rv"].get("mut", True):
+                    cand.discard(st["rv"]["pl"]["l"])
+        # keep only those tested by at least two different switch blocks (a single test gives no correlation)
+        uses = {}
+        for b in range(self.n):
+            t = self.term(b)
+            if t["k"] != "switch" or t["discr"]["k"] not in ("copy", "move") or t["discr"]["pl"]["p"]:
+                continue
+            l = t["discr"]["pl"]["l"]
+            src = {l}
+            # block-local copies / Not
+            for st in reversed(self.blocks[b]["stmts"]):
+                if st["k"] == "assign" and not st["pl"]["p"] and st["pl"]["l"] in src and st["rv"]["k"] in ("use", "unop") \
+                        and st["rv"]["ops"] and st["rv"]["ops"][0]["k"] in ("copy", "move") and not st["rv"]["ops"][0]["pl"]["p"]:
+                    src.add(st["rv"]["ops"][0]["pl"]["l"])
+            for x in src & cand:
+                uses.setdefault(x, set()).add(b)
+        cand = {l for l in cand if len(uses.get(l, ())) >= 2}
+        self._stable = cand
+        return cand
+
     def explore(self, init, transfer, start=0, cap=400000, follow_unwind=False):
         """Flag-sensitive forward exploration.
 
-        State = (bb, flags frozenset-of-(local,val) as tuple, user_state). `transfer(bb, ustate, phase, data)`
-        is called with phase 'stmts' (data = block) -> new ustate, and for each outgoing edge with phase
-        'edge' (data = (label, target)) -> new ustate or None to prune. Returns dict node -> set of
-        (flags, ustate) seen at block entry, and a predecessor map for path reconstruction."""
+        State = (bb, flag valuation, user_state). Tracked exactly: bool locals only ever assigned constants
+        (drop flags, hand-written flags) and, symbolically, single-definition bool locals (a branch on one
+        fixes its value for the rest of the path, so correlated tests are not explored inconsistently).
+        `transfer(bb, ustate, phase, data)` is called with phase 'stmts' (data = block) -> new ustate, and for
+        each outgoing edge with phase 'edge' (data = (label, target)) -> new ustate or None to prune.
+        Returns (dict of visited product nodes, predecessor map)."""
         flags = sorted(self.flag_locals())
-        fidx = {l: i for i, l in enumerate(flags)}
-        init_flags = tuple([None] * len(flags))
+        stable = sorted(self.stable_bools())
+        allf = flags + stable
+        fidx = {l: i for i, l in enumerate(allf)}
+        nflags = len(flags)
+        init_flags = tuple([None] * len(allf))
         seen = {}
         parent = {}
         st0 = (start, init_flags, init)
@@ -470,49 +510,85 @@ class Body:
             if count > cap:
                 raise ExploreCap(self.path)
             fl = list(fl)
-            tmp = {}   # block-local values of temps computed from flags (copies, Not)
+            tmp = {}   # block-local: temp -> ("val", v) | ("sym", stable_local, negated)
             for st in self.blocks[bb]["stmts"]:
                 if st["k"] != "assign" or st["pl"]["p"]:
                     continue
                 dl = st["pl"]["l"]
-                if dl in fidx:
-                    fl[fidx[dl]] = int(st["rv"]["ops"][0]["val"])
-                    continue
                 rv = st["rv"]
+                if dl in fidx and fidx[dl] < nflags:
+                    fl[fidx[dl]] = int(rv["ops"][0]["val"])
+                    continue
+                if dl in fidx:
+                    fl[fidx[dl]] = None   # (re)definition of a stable bool: value unknown again
+                    continue
                 if rv["k"] in ("use", "unop") and rv["ops"] and rv["ops"][0]["k"] in ("copy", "move") and not rv["ops"][0]["pl"]["p"]:
                     sl = rv["ops"][0]["pl"]["l"]
-                    v = fl[fidx[sl]] if sl in fidx else tmp.get(sl)
-                    if v is not None and rv["k"] == "use":
-                        tmp[dl] = v
-                    elif v is not None and rv.get("op") == "Not":
-                        tmp[dl] = 1 - v
+                    neg = 1 if (rv["k"] == "unop" and rv.get("op") == "Not") else 0
+                    if rv["k"] == "unop" and rv.get("op") != "Not":
+                        tmp.pop(dl, None)
+                        continue
+                    if sl in fidx:
+                        v = fl[fidx[sl]]
+                        if v is not None:
+                            tmp[dl] = ("val", v ^ neg)
+                        elif fidx[sl] >= nflags:
+                            tmp[dl] = ("sym", sl, neg)
+                        else:
+                            tmp.pop(dl, None)
+                    elif sl in tmp:
+                        k = tmp[sl]
+                        tmp[dl] = ("val", k[1] ^ neg) if k[0] == "val" else ("sym", k[1], k[2] ^ neg)
                     else:
                         tmp.pop(dl, None)
                 else:
                     tmp.pop(dl, None)
+            t = self.term(bb)
+            if t["k"] == "call" and not t["dest"]["p"] and t["dest"]["l"] in fidx and fidx[t["dest"]["l"]] >= nflags:
+                fl[fidx[t["dest"]["l"]]] = None
             us2 = transfer(bb, us, "stmts", self.blocks[bb])
             if us2 is None:
                 continue
-            t = self.term(bb)
             allowed = None
+            sym = None
             if t["k"] == "switch" and t["discr"]["k"] in ("copy", "move") and not t["discr"]["pl"]["p"]:
                 l = t["discr"]["pl"]["l"]
-                v = fl[fidx[l]] if l in fidx else tmp.get(l)
-                if v is not None:
-                    allowed = None
+                k = None
+                if l in fidx:
+                    v = fl[fidx[l]]
+                    if v is not None:
+                        k = ("val", v)
+                    elif fidx[l] >= nflags:
+                        k = ("sym", l, 0)
+                elif l in tmp:
+                    k = tmp[l]
+                if k is not None and k[0] == "val":
+                    v = k[1]
                     for val, tg in t["targets"]:
                         if int(val) == v:
                             allowed = ("sw:%s" % val, tg)
                             break
                     if allowed is None:
                         allowed = ("sw:else", t["otherwise"])
+                elif k is not None and k[0] == "sym" and self.locals[k[1]]["ty"] == "bool":
+                    sym = k
             for lab, tg in self.edges(bb, unwind=follow_unwind):
                 if allowed is not None and (lab, tg) != allowed:
                     continue
+                fl2 = fl
+                if sym is not None and lab.startswith("sw:"):
+                    # the value of the discriminant on this edge
+                    if lab == "sw:else":
+                        listed = [int(v) for v, _ in t["targets"]]
+                        dv = 1 if 0 in listed else 0
+                    else:
+                        dv = int(lab[3:])
+                    fl2 = list(fl)
+                    fl2[fidx[sym[1]]] = dv ^ sym[2]
                 us3 = transfer(bb, us2, "edge", (lab, tg))
                 if us3 is None:
                     continue
-                nn = (tg, tuple(fl), us3)
+                nn = (tg, tuple(fl2), us3)
                 if nn not in seen:
                     seen[nn] = True
                     parent[nn] = node
